@@ -278,6 +278,61 @@ def history(rng, budget, deep, replay=None):
     return res
 
 
+def two_instances(rng, budget, deep, replay=None):
+    """construction and use of a *second* instance with different parameters must not change what
+    the first returns, and an object used before must return what a fresh one returns"""
+    res = dict(evaluations=0, distinct_nontrivial=0, failures=[], samples=[])
+    classes = catalog.discover()
+    sites = set()
+    with warnings.catch_warnings(), _quiet(), np.errstate(all='ignore'):
+        warnings.simplefilter('ignore')
+        for path, c in sorted(classes.items()):
+            e = catalog.entry(path)
+            name = path.split(':')[1]
+            if replay is not None and replay.get('cls') != path:
+                continue
+            if e.unconstructible or e.grid or (e.slow and not deep) or name in ('Hutchens2', 'Rectangle', 'PlanarCog14'):
+                continue
+            try:
+                args = e.args() if e.args else ()
+                kw = e.kwargs(rng)
+                kw2 = catalog.variant_kwargs(path, c, rng, kw)
+                a = c(*args, **kw)
+                n = max(e.min_n, 3)
+                P, Q = e.points(rng, n), e.points(rng, n + 1)
+                t = e.t(rng)
+                r1 = a(P, t)
+                if kw2 is not None:
+                    b = c(*(e.args() if e.args else ()), **kw2)
+                    b(Q, t)
+                r2 = a(P, t)                      # after another instance was built and used
+                rq = a(Q, t)                      # same object, same time, other points
+                fresh = c(*(e.args() if e.args else ()), **kw)
+                rq0 = fresh(Q, t)                 # the same request to an object never used before
+            except Exception:
+                continue
+            res['evaluations'] += 3
+            res['distinct_nontrivial'] += 1
+            if not res['samples']:
+                res['samples'].append(dict(cls=path, kwargs2=repr(kw2)[:120], t=t))
+            tol = GRID_TOL.get(name, 0)
+            for kind, x, y in (('other-instance', r1, r2), ('used-object', rq, rq0)):
+                for nm in x.dtype.names:
+                    bad = [k for k in range(len(x)) if not _same(x[nm][k], y[nm][k], 0 if kind == 'other-instance' else tol)]
+                    if bad:
+                        site = '%s:%s' % (name, kind)
+                        if site not in sites:
+                            sites.add(site)
+                            res['failures'].append(dict(
+                                site=site, detail='field %s differs (%r vs %r): %s' % (
+                                    nm, x[nm][bad[0]], y[nm][bad[0]],
+                                    'after a second instance with other parameters was built and called' if kind == 'other-instance'
+                                    else 'between an object that served another request at this time and a fresh object'),
+                                case=dict(cls=path, kwargs2=repr(kw2)[:200], t=t)))
+                        break
+    return res
+
+
 def eppiston_batch(rng, budget, deep, replay=None):
     """deterministic witness: the same point raises or returns depending on the other points of the batch"""
     from exactpack.solvers.ep_piston import EPpiston
